@@ -514,12 +514,13 @@ class TStep(ScriptedMixin, Step):
         s = self.spec
         schema = self._base_schema()
         full = cell_var_schema(s['cellvars'])
-        schema['vars'] = {v: full[v] for v in ('n', s['out']) if v in full}
+        schema['vars'] = {v: full[v] for v in (s.get('src', 'n'), s['out']) if v in full}
         return schema
 
     def _script_update(self, k, timestep, states):
         s = self.spec
-        return {'vars': {s['out']: {'_value': states['vars']['n'] + s.get('offset', 1),
+        # (an audit step reads what the tally step it depends on has written: src = 't')
+        return {'vars': {s['out']: {'_value': states['vars'][s.get('src', 'n')] + s.get('offset', 1),
                                     '_updater': 'set'}}}
 
 
